@@ -370,6 +370,14 @@ func init() {
 		}
 		return p.lastNow
 	})
+	reg(v("vNoIOFaults"), func(p *Path, _ *frame, _ *ssa.Function, args []Value) Value {
+		p.ghost["__noiofaults"] = true
+		return nil
+	})
+	reg(v("vIOSize"), func(p *Path, _ *frame, _ *ssa.Function, args []Value) Value {
+		p.ghost["__iosize"] = args[0].(*Term)
+		return nil
+	})
 	reg(v("vTier"), func(p *Path, _ *frame, _ *ssa.Function, args []Value) Value {
 		return p.ctx.Const(64, uint64(p.eng.Opt.Tier))
 	})
@@ -404,6 +412,7 @@ func init() {
 		"(*" + raftPkg + ".saturationMetric).working",
 		"(*" + raftPkg + ".followerReplication).setLastContact.metrics",
 		"(*" + raftPkg + ".Raft).setLeader.observe",
+		raftPkg + ".newSaturationMetric",
 	} {
 		reg(n, noop)
 	}
@@ -602,7 +611,28 @@ func (p *Path) stubByPackage(pp string, fn *ssa.Function, args []Value) (Value, 
 		return nil, false
 	case "runtime":
 		return p.zeroResult(fn), true
-	case "os", "path/filepath", "strings", "bufio", "encoding/json", "hash/crc64", "hash", "io/ioutil":
+	case "strings":
+		switch fn.Name() {
+		case "Contains", "HasPrefix", "HasSuffix":
+			a, ok1 := p.strText(args[0].(StrV))
+			b, ok2 := p.strText(args[1].(StrV))
+			if ok1 && ok2 {
+				switch fn.Name() {
+				case "Contains":
+					return c.Bool(strings.Contains(a, b)), true
+				case "HasPrefix":
+					return c.Bool(strings.HasPrefix(a, b)), true
+				default:
+					return c.Bool(strings.HasSuffix(a, b)), true
+				}
+			}
+			// opaque (formatted) text never contains a marker constant
+			return c.False, true
+		}
+		if r, ok := p.fsStub(fn, args); ok {
+			return r, true
+		}
+	case "os", "path/filepath", "bufio", "encoding/json", "hash/crc64", "hash", "io/ioutil":
 		if r, ok := p.fsStub(fn, args); ok {
 			return r, true
 		}
@@ -776,6 +806,14 @@ func (p *Path) ioCopy(fn *ssa.Function, args []Value) Value {
 	p.assume(p.ctx.Cmp(OpSle, p.ctx.Const(64, 0), n))
 	fail := p.freshVar("io.copy.fail", 0)
 	p.addInput(fmt.Sprintf("io.copy.fail#%d", k), "fail", fail)
+	if _, ok := p.ghost["__noiofaults"]; ok {
+		p.assume(p.ctx.Not(fail))
+		fail = p.ctx.False
+		// a faithful stream delivers exactly the announced size when the harness said so
+		if sz, ok := p.ghost["__iosize"]; ok && k == 0 {
+			p.assume(p.ctx.Eq(n, sz.(*Term)))
+		}
+	}
 	var err Value = Iface{}
 	if p.branch(fail, "io.Copy error") {
 		err = p.newError(p.strConst("io.Copy failed (injected)"))
